@@ -115,6 +115,11 @@ static rx::ilu0<B>::params ilu0_prm(Tok &t) { rx::ilu0<B>::params p; p.damping =
 static rx::iluk<B>::params iluk_prm(Tok &t) { rx::iluk<B>::params p; p.k = (int)t.i(); p.damping = t.q(); p.solve.serial = true; return p; }
 static rx::ilup<B>::params ilup_prm(Tok &t) { rx::ilup<B>::params p; p.k = (int)t.i(); p.damping = t.q(); p.solve.serial = true; return p; }
 VQ_OP(ilu0)   { std::string m = t.s(); auto p = ilu0_prm(t); return sweep<rx::ilu0>(m, p, t); }
+// the level-scheduled PARALLEL forms (taken when >= 4 OpenMP threads are available at construction):
+// gauss_seidel::parallel_sweep and ilu_solve::sptr_solve; same model ops as the serial forms
+// (C09 proves schedule-validity => serial result; C06 demands the sweep's definition of both forms)
+VQ_OP(gsp)    { std::string m = t.s(); rx::gauss_seidel<B>::params p; p.serial = false; return sweep<rx::gauss_seidel>(m, p, t); }
+VQ_OP(ilu0p)  { std::string m = t.s(); auto p = ilu0_prm(t); p.solve.serial = false; return sweep<rx::ilu0>(m, p, t); }
 VQ_OP(iluk)   { std::string m = t.s(); auto p = iluk_prm(t); return sweep<rx::iluk>(m, p, t); }
 VQ_OP(ilup)   { std::string m = t.s(); auto p = ilup_prm(t); return sweep<rx::ilup>(m, p, t); }
 
